@@ -371,6 +371,7 @@ type loopParts struct {
 	node ast.Stmt
 	label string
 	ghostIdx string // name under which the range index is visible to invariants
+	headFact func() string // automatic invariant of range loops: 0 <= index <= len
 }
 
 // modifiedBy runs the loop body in dry mode (repeatedly, to a fixpoint) and returns the set
@@ -387,6 +388,7 @@ func (e *Exec) modifiedBy(lp *loopParts) (map[interface{}]bool, map[string]bool,
 	}
 	e.freshOnly = map[string]bool{}
 	e.invLocs = map[string][]string{}
+	nAtEntry := e.n
 	lastIterN := e.n
 	lastIterLog := map[string]int{}
 	defer func() {
@@ -394,7 +396,7 @@ func (e *Exec) modifiedBy(lp *loopParts) (map[interface{}]bool, map[string]bool,
 		fo := map[string]bool{}
 		il := map[string][]string{}
 		for k := range modH {
-			if e.onlyFreshWrites(k, logStart[k]) {
+			if e.onlyLoopFreshWrites(k, logStart[k], nAtEntry) {
 				fo[k] = true
 				continue
 			}
@@ -414,8 +416,8 @@ func (e *Exec) modifiedBy(lp *loopParts) (map[interface{}]bool, map[string]bool,
 					ok = false
 					break
 				}
-				if e.isFreshTerm(w) {
-					continue
+				if e.isFreshTerm(w) && !invariantTerm(w, nAtEntry) {
+					continue // allocated inside the loop body
 				}
 				if !invariantTerm(w, lastIterN) {
 					ok = false
@@ -428,7 +430,7 @@ func (e *Exec) modifiedBy(lp *loopParts) (map[interface{}]bool, map[string]bool,
 			}
 			// every earlier dry iteration must agree (same invariant locations or fresh)
 			for _, w := range ws[logStart[k]:from] {
-				if w == "*" || (!e.isFreshTerm(w) && !seen[w]) {
+				if w == "*" || (!(e.isFreshTerm(w) && !invariantTerm(w, nAtEntry)) && !seen[w]) {
 					ok = false
 				}
 			}
@@ -449,6 +451,27 @@ func (e *Exec) modifiedBy(lp *loopParts) (map[interface{}]bool, map[string]bool,
 	fr := e.frame()
 	savedRets := len(fr.rets)
 	savedDefers := len(fr.defers)
+	// labelled break/continue out of the dry run reach enclosing loops' lists: remember their lengths
+	type lcLen struct{ b, c int }
+	outer := make([]lcLen, len(fr.loops))
+	for i, lc := range fr.loops {
+		outer[i] = lcLen{len(lc.breaks), len(lc.continues)}
+	}
+	restoreOuter := func(collect bool) []*State {
+		var leaked []*State
+		for i, lc := range fr.loops {
+			if i >= len(outer) {
+				break
+			}
+			if collect {
+				leaked = append(leaked, lc.breaks[outer[i].b:]...)
+				leaked = append(leaked, lc.continues[outer[i].c:]...)
+			}
+			lc.breaks = lc.breaks[:outer[i].b]
+			lc.continues = lc.continues[:outer[i].c]
+		}
+		return leaked
+	}
 	for iter := 0; iter < 4; iter++ {
 		lastIterN = e.n
 		for k, ws := range e.writes {
@@ -474,6 +497,7 @@ func (e *Exec) modifiedBy(lp *loopParts) (map[interface{}]bool, map[string]bool,
 		e.popLoop()
 		finals := append([]*State{e.st}, lc.breaks...)
 		finals = append(finals, fr.rets[savedRets:]...)
+		finals = append(finals, restoreOuter(true)...) // states that left through an enclosing loop's label
 		fr.rets = fr.rets[:savedRets]
 		fr.defers = fr.defers[:savedDefers]
 		changed := false
@@ -630,6 +654,9 @@ func (e *Exec) runLoop(lp *loopParts) {
 	e.havocSet(modV, modH, allocCh)
 	e.loopAlloc = ""
 	// 3. assume invariant
+	if lp.headFact != nil {
+		e.assume(lp.headFact())
+	}
 	if spec != nil {
 		for _, inv := range spec.Invariants {
 			e.assume(e.specBool(inv, e.loopEnv()))
@@ -752,6 +779,10 @@ func (e *Exec) execRange(s *ast.RangeStmt, label string) {
 			}
 		}
 		lp.cond = func() string { return sx("<", e.st.vars[idxKey].(SV).T, sl.Len) }
+		lp.headFact = func() string {
+			i := e.st.vars[idxKey].(SV).T
+			return mkAnd(sx("<=", "0", i), sx("<=", i, sl.Len))
+		}
 		lp.pre = func() {
 			i := e.st.vars[idxKey].(SV)
 			e.assume(sx(">=", i.T, "0"))
@@ -772,6 +803,10 @@ func (e *Exec) execRange(s *ast.RangeStmt, label string) {
 			n := e.asInt(e.ev(s.X))
 			e.st.vars[idxKey] = iv("0")
 			lp.cond = func() string { return sx("<", e.st.vars[idxKey].(SV).T, n) }
+			lp.headFact = func() string {
+				i := e.st.vars[idxKey].(SV).T
+				return mkAnd(sx("<=", "0", i), mkOr(sx("<=", i, n), sx("<", n, "0")))
+			}
 			lp.pre = func() { bindKV(e.st.vars[idxKey], nil) }
 			lp.post = func() { e.st.vars[idxKey] = iv(mkAdd(e.st.vars[idxKey].(SV).T, "1")) }
 			e.runLoopRangeIdx(lp, idxKey)
